@@ -107,6 +107,8 @@ func newSemantic() *grammar.Parser {
 	return p
 }
 
+var stmtSeen sync.Map // rendered texts of grammar statements evaluated
+
 var plainPool = sync.Pool{New: func() interface{} { return newPlain() }}
 
 // ---- part 1: acceptance against the Recogniser --------------------------------------
@@ -146,11 +148,7 @@ func classify(ks []recog.Kind) (class string, v recog.Verdict) {
 	}
 	for n := len(ks) - 1; n > 0; n-- {
 		if pv, _ := table.Recognise(ks[:n]); pv.Derivable {
-			extra := "tokens"
-			if len(ks)-n == 1 {
-				extra = "token"
-			}
-			return fmt.Sprintf("statement-followed-by-extra-%s", extra), v
+			return "statement-followed-by-extra-tokens", v
 		}
 	}
 	if v.Viable {
@@ -176,6 +174,9 @@ func evalSeq(ks []recog.Kind, origin string, fresh bool) (o seqOutcome) {
 	}
 	o.rendered = true
 	class, rv := classify(ks)
+	if rv.Derivable {
+		stmtSeen.Store(text, true)
+	}
 	c := seqCase{recog.KindNames(ks), text, origin}
 	var p *grammar.Parser
 	if fresh {
@@ -372,28 +373,45 @@ type histCase struct {
 	Then    string   `json:"then"`
 }
 
-// firstClass classifies the history by what its last statement leaves behind:
-// computed from the text alone (tokens of the statement and where it stops).
-func firstClass(a string) string {
+// histClass is the input classifier of a (history, then) case, computed from
+// the texts alone: what the last statement of the history is (complete, or
+// where it is cut) and whether `then` has the part that could be affected.
+func histClass(a, b string) string {
 	ks, clean := recog.LexKinds(a)
+	bk, _ := recog.LexKinds(b)
+	has := func(ks []recog.Kind, want ...recog.Kind) bool {
+		for _, k := range ks {
+			for _, w := range want {
+				if k == w {
+					return true
+				}
+			}
+		}
+		return false
+	}
+	then := func(feature string, present bool) string {
+		if present {
+			return ";then:statement-with-" + feature
+		}
+		return ";then:statement-without-" + feature
+	}
+	bData := len(bk) > 0 && (bk[0] == lexer.ItemInsert || bk[0] == lexer.ItemDelete)
+	bWhere := has(bk, lexer.ItemWhere)
+	bBound := has(bk, lexer.ItemBefore, lexer.ItemAfter, lexer.ItemBetween)
 	if len(ks) == 0 {
 		return "after:empty-input"
 	}
 	v, _ := table.Recognise(ks)
-	head := ks[0].String()
+	head := ks[0]
 	if clean && v.Derivable {
-		f := "after:complete-" + head
-		for _, k := range ks {
-			if k == lexer.ItemBetween {
-				f += "-with-BETWEEN"
-			}
+		if has(ks, lexer.ItemBetween) {
+			return "after:complete-statement-with-BETWEEN" + then("global-time-bound", bBound)
 		}
-		return f
+		return "after:complete-statement"
 	}
 	last := ks[len(ks)-1]
-	switch head {
-	case "INSERT", "DELETE":
-		// how many data tokens (NODE/PREDICATE/LITERAL) after the opening bracket
+	if head == lexer.ItemInsert || head == lexer.ItemDelete {
+		// data tokens (NODE/PREDICATE/LITERAL) after the opening bracket
 		n, in := 0, false
 		for _, k := range ks {
 			if k == lexer.ItemLBracket {
@@ -405,36 +423,20 @@ func firstClass(a string) string {
 			}
 		}
 		if n%3 != 0 {
-			return fmt.Sprintf("after:data-statement-cut-inside-a-triple(%d-of-3)", n%3)
+			return "after:data-statement-cut-inside-a-triple" + then("data-block", bData)
 		}
 		return "after:data-statement-cut-between-triples"
 	}
 	switch last {
 	case lexer.ItemAs, lexer.ItemType, lexer.ItemID, lexer.ItemAt:
-		return "after:statement-cut-after-alias-keyword-" + last.String()
-	case lexer.ItemBefore, lexer.ItemAfter, lexer.ItemBetween:
-		return "after:statement-cut-after-time-bound-keyword"
-	}
-	for _, k := range ks {
-		if k == lexer.ItemBefore || k == lexer.ItemAfter || k == lexer.ItemBetween {
-			return "after:statement-cut-after-a-global-time-bound"
+		if has(ks, lexer.ItemWhere) {
+			return "after:statement-cut-after-alias-keyword-in-where-clause" + then("where-clause", bWhere)
 		}
 	}
-	return "after:other-cut-or-rejected-" + head
-}
-
-func thenClass(b string) string {
-	ks, _ := recog.LexKinds(b)
-	if len(ks) == 0 {
-		return "then:empty"
+	if has(ks, lexer.ItemBefore, lexer.ItemAfter, lexer.ItemBetween) {
+		return "after:statement-cut-at-or-after-global-time-bound-keyword" + then("global-time-bound", bBound)
 	}
-	c := "then:" + ks[0].String()
-	for _, k := range ks {
-		if k == lexer.ItemBefore || k == lexer.ItemAfter || k == lexer.ItemBetween {
-			return c + "-with-time-bound"
-		}
-	}
-	return c
+	return "after:statement-cut-or-rejected-elsewhere"
 }
 
 // checkHistory parses the history then `then` on one semantic parser and
@@ -581,11 +583,24 @@ func main() {
 	r.Assume("the recogniser is validated at start against the accept/reject tables extracted from bql/grammar/grammar_test.go; disagreement is a machinery error")
 
 	fresh := map[string]obs{}
+	usable := corpus[:0:0]
 	for _, b := range corpus {
 		o := observe(newSemantic(), b)
 		if !o.V.Accepted {
-			common.Machinery("corpus statement not accepted by a fresh SemanticBQL parser: %q: %s", b, o.V)
+			// The corpus is valid BQL (docs, grammar tests) and accepted on the tree it
+			// was written against. If the PLAIN parser rejects a statement the
+			// recogniser derives, that is the property failing, not the corpus.
+			ks, clean := recog.LexKinds(b)
+			if pv, _ := parseOn(newPlain(), b); clean && !pv.Accepted {
+				if rv, _ := table.Recognise(ks); rv.Greedy {
+					r.Fail(common.Failure{Check: "sequence", Class: "statement", Shape: "parser-rejects-a-derivable-statement",
+						Case: seqCase{Tokens: recog.KindNames(ks), Text: b, Origin: "corpus"}, Detail: fmt.Sprintf("corpus statement %q is a grammar statement, yet the plain parser %s", b, pv)})
+					continue
+				}
+			}
+			common.Machinery("corpus statement not accepted by a fresh SemanticBQL parser (the plain parser accepts it): %q: %s", b, o.V)
 		}
+		usable = append(usable, b)
 		if o2 := observe(newSemantic(), b); o2.Dump != o.Dump {
 			common.Machinery("dump of %q is not deterministic across fresh parsers:\n%s", b, diffLines(o.Dump, o2.Dump))
 		}
@@ -737,7 +752,7 @@ func main() {
 		}
 	}
 	kindsCovered := map[string]bool{}
-	for _, b := range corpus {
+	for _, b := range usable {
 		ks, _ := recog.LexKinds(b)
 		kindsCovered[ks[0].String()] = true
 		addFirst(b)
@@ -748,8 +763,13 @@ func main() {
 	for _, a := range extraFirst {
 		addFirst(a)
 	}
-	if len(kindsCovered) != 8 {
+	if len(kindsCovered) != 8 && len(usable) == len(corpus) {
 		common.Machinery("corpus covers %d statement kinds, want 8", len(kindsCovered))
+	}
+	if len(usable) == 0 {
+		r.SetCapped()
+		r.Set("rule", "part 2 not run: the parser rejects every corpus statement")
+		r.Finish()
 	}
 	var pairs, firstRejected int64
 	for _, a := range firsts {
@@ -759,21 +779,20 @@ func main() {
 	}
 	common.ParallelFor(len(firsts), func(i int) {
 		a := firsts[i]
-		ac := firstClass(a)
-		for _, b := range corpus {
+		for _, b := range usable {
 			if r.OutOfTime() {
 				return
 			}
 			atomic.AddInt64(&pairs, 1)
 			c := histCase{[]string{a}, b}
 			if ok, shape, d := checkHistory(c, fresh[b]); !ok {
-				r.Fail(common.Failure{Check: "history", Class: ac + ";" + thenClass(b), Shape: shape, Case: c, Detail: d})
+				r.Fail(common.Failure{Check: "history", Class: histClass(a, b), Shape: shape, Case: c, Detail: d})
 			}
 		}
 	})
 	r.Set("stateless_first_statements", len(firsts))
 	r.Set("stateless_first_statements_rejected", int(firstRejected))
-	r.Set("stateless_second_statements", len(corpus))
+	r.Set("stateless_second_statements", len(usable))
 	r.Set("stateless_pairs", int(pairs))
 	triples := 0
 	if r.Thorough() {
@@ -781,8 +800,8 @@ func main() {
 		var sub []string
 		seen := map[string]bool{}
 		for _, a := range firsts {
-			c := firstClass(a)
-			if !seen[c] {
+			c := histClass(a, usable[6%len(usable)]) + "|" + histClass(a, usable[10%len(usable)]) + "|" + histClass(a, usable[34%len(usable)])
+			if len(sub) < 40 && !seen[c] {
 				seen[c] = true
 				sub = append(sub, a)
 			}
@@ -790,8 +809,9 @@ func main() {
 		sort.Strings(sub)
 		var cs []string
 		seenB := map[string]bool{}
-		for _, b := range corpus {
-			if c := thenClass(b); !seenB[c] {
+		for _, b := range usable {
+			bk, _ := recog.LexKinds(b)
+			if c := bk[0].String(); !seenB[c] {
 				seenB[c] = true
 				cs = append(cs, b)
 			}
@@ -809,7 +829,7 @@ func main() {
 			t := trs[i]
 			c := histCase{[]string{t.a, t.b}, t.c}
 			if ok, shape, d := checkHistory(c, fresh[t.c]); !ok {
-				r.Fail(common.Failure{Check: "history", Class: firstClass(t.b) + ";" + thenClass(t.c), Shape: shape, Case: c, Detail: d})
+				r.Fail(common.Failure{Check: "history", Class: histClass(t.b, t.c), Shape: shape, Case: c, Detail: d})
 			}
 		})
 		triples = len(trs)
@@ -820,10 +840,12 @@ func main() {
 	r.Set("transitions", int(evaluated))
 	r.Set("traces_validated_against_impl", int(rendered)+int(mutRendered)+int(sentRendered)+int(pairs)+triples)
 	r.Set("evaluations", int(evaluated)+int(mutEval)+len(sentences)+int(pairs)+triples)
-	r.Set("distinct_nontrivial", int(accepted))
-	r.Set("rule", fmt.Sprintf("BFS: every viable token prefix of length < %d extended by each of the %d token kinds; statements: every derivable statement of at most %d tokens with every single-token deletion, insertion and substitution; statelessness: every token prefix of every corpus statement, every corpus statement and %d semantically rejected statements, each followed by each of %d corpus statements on one SemanticBQL parser; distinct_nontrivial = sequences the plain parser accepted", completed+1, len(allKind), sentLen, len(extraFirst), len(corpus)))
+	nStmt := 0
+	stmtSeen.Range(func(_, _ interface{}) bool { nStmt++; return true })
+	r.Set("distinct_nontrivial", nStmt)
+	r.Set("rule", fmt.Sprintf("BFS: every viable token prefix of length < %d extended by each of the %d token kinds; statements: every derivable statement of at most %d tokens with every single-token deletion, insertion and substitution; statelessness: every token prefix of every corpus statement, every corpus statement and %d semantically rejected statements, each followed by each of %d corpus statements on one SemanticBQL parser; distinct_nontrivial = distinct token sequences evaluated that are grammar statements (accept side)", completed+1, len(allKind), sentLen, len(extraFirst), len(usable)))
 	r.Sample(seqCase{Tokens: recog.KindNames(sentences[len(sentences)/2]), Text: func() string { s, _ := recog.Render(sentences[len(sentences)/2]); return s }(), Origin: "sentence"})
-	r.Sample(histCase{History: []string{firsts[len(firsts)/3]}, Then: corpus[6]})
-	r.Sample(histCase{History: []string{extraFirst[0]}, Then: corpus[5]})
+	r.Sample(histCase{History: []string{firsts[len(firsts)/3]}, Then: usable[6%len(usable)]})
+	r.Sample(histCase{History: []string{extraFirst[0]}, Then: usable[5%len(usable)]})
 	r.Finish()
 }
